@@ -600,6 +600,12 @@ def run(ctx):
     rules.append(borrow(c05.r3_diagnostics(ctx, ctx.mir("main")), "C08.R7", "an unused plural form stays part of the value (and of the signature)",
                         "`exactly the union, over all locales, of those occurring in that key's value`: the unused-form check warns; if it also removed the form, "
                         "the variables only that form uses would vanish from the signature", only=r"forms-kept|check_forms", floor=1))
+    # `those occurring in that key's value`: the value the arguments are collected from is the reduced one - reduce keeps every variable,
+    # component (also one without content), range and plural (reduce_into evaluated on a mixed bloc, shared with C01.R3)
+    from rules import c01
+    rules.append(borrow(c01.r3_join(ctx), "C08.R8", "reducing a value keeps every variable, component, range and plural it contains",
+                        "`exactly the union ... of those occurring in that key's value`: a component dropped while the value is reduced (e.g. because its content is "
+                        "empty) disappears from the signature, so `t!(.., <br> = ..)` stops compiling", only=r"reduce_into", floor=1))
     if ctx.tier == "thorough":
         from rules import witness
         rules.append(witness.rule(ctx))
